@@ -55,6 +55,9 @@ LogSat(obj, l) ==
   /\ \/ obj.fproc.kind = "none"
      \/ obj.fproc.kind = "pid" /\ l.pid = obj.fproc.pid
      \/ obj.fproc.kind = "name" /\ l.proc = obj.fproc.name
+     \* the filter is ONE string compared with the pid (as decimal text) and with the process name: a string of digits
+     \* selects the process with that pid AND the process with that name
+     \/ obj.fproc.kind = "both" /\ (l.pid = obj.fproc.pid \/ l.proc = obj.fproc.name)
 ReqLogs(obj, dump) == SelectSeq(dump.logs, LAMBDA l : LogSat(obj, l))
 
 \* ---- decode: fold Pairing!Step, remembering the tables as they are when each trace comes out ------
@@ -77,6 +80,7 @@ ProcSat(fproc, tr, tid) ==
   \/ fproc.kind = "none"
   \/ /\ fproc.kind = "pid"  /\ Get(tr.tpid, tid, -1) = fproc.pid
   \/ /\ fproc.kind = "name" /\ Get(tr.pname, Get(tr.tpid, tid, -1), "") = fproc.name
+  \/ /\ fproc.kind = "both" /\ (Get(tr.tpid, tid, -1) = fproc.pid \/ Get(tr.pname, Get(tr.tpid, tid, -1), "") = fproc.name)
 
 \* ---- C13: the mechanism, as the code is written -------------------------------------------------
 AddTrace(obj) == HasLists(obj.fclass, obj.fsub) /\ DBG_TRACE \notin Range(obj.fclass)
